@@ -99,11 +99,44 @@ def sqlite_runner(case):
     import sqlite3
     from rbql import rbql_sqlite
 
-    def run(q):
+    qi = lambda n: '"%s"' % n.replace('"', '""')           # quoted identifier
+
+    def make_db():
         db = sqlite3.connect(':memory:')
-        cols = ', '.join('"%s" TEXT' % n.replace('"', '""') for n in case['names'])
-        db.execute('CREATE TABLE t (%s)' % cols)
-        db.executemany('INSERT INTO t VALUES (%s)' % ','.join('?' * len(case['names'])), [list(r) for r in case['records']])
+        names, recs, schema = case['names'], [list(r) for r in case['records']], case.get('schema')
+        if schema is None:
+            db.execute('CREATE TABLE t (%s)' % ', '.join(qi(n) + ' TEXT' for n in names))
+            db.executemany('INSERT INTO t VALUES (%s)' % ','.join('?' * len(names)), recs)
+            return db
+        # declared shapes: ordinary columns of several declared types, generated columns (VIRTUAL / STORED) that copy an ordinary
+        # column or are a constant, and / or a view whose aliases are the column names
+        view = schema['view']
+        base = ['c%d' % j for j in range(len(names))] if view else names
+        decl, plain = [], []
+        for j, col in enumerate(schema['cols']):
+            if col['role'] == 'plain':
+                decl.append(qi(base[j]) + ' ' + col['type'])
+                plain.append(j)
+            else:
+                expr = qi(base[col['src']]) if 'src' in col else "'%s'" % col['const']
+                decl.append('%s TEXT GENERATED ALWAYS AS (%s) %s' % (qi(base[j]), expr, 'STORED' if col['stored'] else 'VIRTUAL'))
+        tname = 'base_t' if view else 't'
+        db.execute('CREATE TABLE %s (%s)' % (tname, ', '.join(decl)))
+        db.executemany('INSERT INTO %s (%s) VALUES (%s)' % (tname, ', '.join(qi(base[j]) for j in plain), ','.join('?' * len(plain))),
+                       [[r[j] for j in plain] for r in recs])
+        if view:
+            db.execute('CREATE VIEW t AS SELECT %s FROM base_t' % ', '.join('%s AS %s' % (qi(b), qi(n)) for b, n in zip(base, names)))
+        return db
+
+    # the harness-side statement of what the table holds, checked against sqlite itself
+    cur = make_db().execute('SELECT * FROM t')
+    truth = {'names': [d[0] for d in cur.description], 'records': [list(r) for r in cur.fetchall()]}
+    spec_ok = truth == {'names': list(case['names']), 'records': [list(r) for r in case['records']]}
+
+    def run(q):
+        if not spec_ok:
+            return {'harness_spec_mismatch': truth}
+        db = make_db()
         it = rbql_sqlite.SqliteRecordIterator(db, 't')
         rows, warns = [], []
         w = E.TableWriter(rows)
